@@ -877,10 +877,9 @@ func (t *Teamserver) EventListenerError(ListenerName string, Error error) {
 	}
 	t.ListenersMtx.Unlock()
 
-	if !stillOurs {
-		// the name is not ours any more: this is all, nothing of it is kept for newcomers
-		t.EventBroadcast("", pk)
-	}
+	// when the name is not ours any more (the listener was removed before its start failed, the
+	// name may have been given to another listener since) nobody is told: the operators have seen
+	// the removal, and a client would apply the report to whatever listener has that name now
 }
 
 func (t *Teamserver) SendEvent(id string, pk packager.Package) error {
